@@ -156,7 +156,7 @@ fn normalise(b: &Built, res: &RunResult, post: &[Event]) -> (Vec<String>, Vec<St
     let mut tail = Vec::new();
     match &res.outcome {
         Outcome::Done => {}
-        Outcome::Deadlock => tail.push(Obj::new("deadlock").int("t", 0).int("d", 0).done()),
+        Outcome::Unstuck(_) | Outcome::Deadlock => tail.push(Obj::new("deadlock").int("t", 0).int("d", 0).done()),
         Outcome::Livelock | Outcome::StepLimit => {
             tail.push(Obj::new("livelock").int("t", 0).int("d", 0).done())
         }
